@@ -941,16 +941,16 @@ Fixpoint zunion_keys (ks : list bytes) (agg : Z) (acc : fmap score) (now : Z) (d
           end
       end
   end.
-(* ZUnionStore: the destination is opened (created if missing) first and the union is
-   merged into whatever it holds.  A destination that is also an operand re-locks: Unm. *)
+(* ZUnionStore: the operands are read first (as ZInterStore does), then the destination is opened
+   (created if missing) and the union is merged into whatever it holds; the destination may be an operand. *)
 Definition api_zunionstore (dst : bytes) (ks : list bytes) (agg : Z) (now : Z) (d : db) : res Z :=
-  if existsb (bytes_eqb dst) ks then Unm
-  else
-  match write_key dst new_zset now d with
-  | (None, _) => Unm
-  | (Some mt, d1) =>
-      match zunion_keys ks agg [] now d1 with
-      | Ok acc d2 =>
+  match zunion_keys ks agg [] now d with
+  | Panic d1 => Panic d1
+  | Unm => Unm
+  | Ok acc d1 =>
+      match write_key dst new_zset now d1 with
+      | (None, _) => Unm
+      | (Some mt, d2) =>
           match acc with
           | [] => Ok 0 d2
           | _ =>
@@ -962,8 +962,6 @@ Definition api_zunionstore (dst : bytes) (ks : list bytes) (agg : Z) (now : Z) (
                      (notify (PZUnionStore dst ks) (signal dst mt (set_val_of mt (VZSet z') d2)))
               end
           end
-      | Panic d2 => Panic d2
-      | Unm => Unm
       end
   end.
 
